@@ -62,7 +62,7 @@ pub fn decode_maps(data: &[u8]) -> crate::props::c13::Case {
         let perms = next().unwrap_or(0) % 16;
         let off = match next().unwrap_or(0) % 4 {
             0 => Off::Zero,
-            1 => Off::PrevEnd,
+            1 => if b0 & 0x80 != 0 { Off::PrevFileEnd } else { Off::PrevEnd },
             2 => Off::Pages(next().unwrap_or(0) as u32),
             _ => Off::Arbitrary((next().unwrap_or(0) as u64) << 12),
         };
